@@ -260,8 +260,15 @@ pub fn corpus(out: &mut Out, path: &str) -> usize {
         let h: Vec<&str> = head.split_whitespace().collect();
         if h.len() < 3 || h[0] == "seg" { continue; }
         let mut r = Runner::new(out, "corpus", h[0], h[2].parse().unwrap_or(8), h[1].parse().unwrap_or(0));
+        let mut inject: Option<usize> = None;
         for o in ops.split(';') {
             if let Some(op) = Op::parse(o.trim()) {
+                if op.name == "@inject" { inject = Some(op.a[0] as usize); continue; }
+                if let Some(k) = inject.take() {
+                    let modelled = matches!(h[0], "map" | "set" | "key" | "mlist" | "slist" | "klist");
+                    if !r.step_injected(&op, k, None, modelled) { break; }
+                    continue;
+                }
                 // the key a handle designates = what it designates now
                 let ek = if matches!(op.name.as_str(), "delidx" | "validx" | "setidx" | "after" | "before") {
                     r.real.entries().unwrap_or_default().iter().find(|e| e.0 as i64 == op.a[0]).map(|e| e.1)
